@@ -332,7 +332,10 @@ class HyperWorld(World):
         with ctx.sut():
             known = np.asarray(sim.Bc_dofs_Dirichlet(self.pt), dtype=int)
         free = np.setdiff1d(np.arange(n), known)
-        trial = u_n + op["theta"] * self.dt * v_n + rng.normal(size=n) * 2e-3
+        inc = op["theta"] * self.dt * v_n
+        if refs.maxabs(inc) > 0.05:
+            inc = inc * (0.05 / refs.maxabs(inc))  # a trial state a Newton loop could meet: bodies are of unit size
+        trial = u_n + inc + rng.normal(size=n) * 2e-3
         trial[known] = u_n[known]
         d = np.zeros(n)
         d[free] = rng.uniform(-1, 1, free.size)
@@ -360,6 +363,9 @@ class HyperWorld(World):
             setattr(sim, self.TRIAL_ATTR, old)
             sim.Need_Update()
         A = cK * K + cC * C + cM * M
+        if not (np.all(np.isfinite(R0)) and np.all(np.isfinite(Rp)) and np.all(np.isfinite(Rm)) and np.all(np.isfinite(A.data))):
+            ctx.probe("tangent_trial_state_overflows")
+            return "rejected"  # the exponential laws overflow far from the trajectory: nothing to differentiate
         Ad = (A @ d)[free]
         fd = ((Rp - Rm) / (2 * h))[free]
         scale = max(refs.maxabs((abs(A) @ np.abs(d))[free]), 1e-300)
